@@ -80,7 +80,7 @@ def main() -> int:
             hit = [v for v in res.violations if v.key == f.get("key")]
             other = [v for v in res.violations if v.key != f.get("key")]
             if hit:
-                known_lines.append(f"KNOWN-FINDING: property={pid} {f['text']}")
+                known_lines.append(f"KNOWN-FINDING: {f['text']}")
             else:
                 print(f"NOTE: witness {rel} of open finding key={f.get('key')} no longer fails")
             for v in other:
@@ -163,7 +163,7 @@ def main() -> int:
     for f in known["open"]:
         k = f.get("key")
         if known_hits.get(k) and not any(f["text"] in ln for ln in known_lines):
-            known_lines.append(f"KNOWN-FINDING: property={pid} {f['text']}")
+            known_lines.append(f"KNOWN-FINDING: {f['text']}")
 
     wall = time.monotonic() - t0
     if not a.no_evidence:
